@@ -10,9 +10,9 @@ tie    : (a) harness/c04.cpp calls BOTH overloads of the real compute_shortest_d
          the extracted decision procedures check_matrix / check_landmarks (Bellman-Ford) and is compared with
          the extracted Dijkstra models (two tie-breaking rules per flavour); DBL_MAX = unreachable = None.
          With one thread the sequence of distance-callback calls (which edges are examined, in which order) is
-         compared with the instrumented model that contains the CONCRETE Fibonacci heap of property C16
-         (Fibonacci build: every graph, ties included; priority-queue build: tie-free graphs); informational,
-         a disagreement only enlarges the search.
+         compared with the instrumented model that contains the CONCRETE queue of that build: the Fibonacci heap
+         of property C16 / the binary heap of libstdc++ (Dijkstra_PQC_Model.v) — every graph, ties included;
+         informational, a disagreement only enlarges the search.
          (b) the real text of IsomapImplementation::embed() / LandmarkIsomapImplementation::embed() runs with
          `compute_shortest_distances_matrix(` and `eigendecomposition_via(` wrapped by recording macros: the
          neighbours tapkee found, the geodesics it computed and the matrix it handed to the eigensolver are
@@ -62,9 +62,13 @@ TRUSTED = [
     "are exact in binary64); infinity (DBL_MAX in the code) modelled as None; IEEE rounding on non-dyadic inputs "
     "is not modelled",
     "std::priority_queue is modelled by its contract (top is SOME minimal-key entry; theorems hold for every such "
-    "choice); the Fibonacci heap both by that contract and concretely (Dijkstra_FibC_Model.v runs on property C16's "
-    "pointer-order model FibHeap_Model.v, whose own tie to fibonacci_heap.hpp is C16's structural correspondence and, "
-    "here, the exact comparison of the distance-callback call sequence)",
+    "choice) AND concretely: Dijkstra_PQC_Model.v is libstdc++'s binary heap (bits/stl_heap.h of GCC 12: __push_heap, "
+    "__adjust_heap with the value kept in the hole), proved to keep the heap order and to meet the contract "
+    "(binary_heap_refines_queue, dijkstra_pq_concrete_correct); that this hand-written model IS the libstdc++ in use "
+    "is tied by the exact comparison of the distance-callback call sequence of the priority-queue build on every "
+    "graph, ties included; the Fibonacci heap likewise by that contract and concretely (Dijkstra_FibC_Model.v runs on "
+    "property C16's pointer-order model FibHeap_Model.v, whose own tie to fibonacci_heap.hpp is C16's structural "
+    "correspondence and, here, the exact comparison of the distance-callback call sequence)",
     "OpenMP: rows are modelled as independent functions of the source (one thread writes one row); the harness "
     "observes 1, 3 and 16 threads; libgomp itself is not modelled (property C15)",
     "Eigen's SelfAdjointEigenSolver and sqrt are oracles: isomap_embedding_top_d_partial / isomap_subspace_optimal "
@@ -893,9 +897,8 @@ def evaluate_sp(ctx, exes, cases, stats, shrink=True):
                 continue
             if model.get("full " + ("pq0" if key[0] == "pq" else "fib0")) != full and not ctx.has_violation():
                 ctx.mismatch(strip(c), "model and implementation disagree (%s/%s)" % key)
-        # (iv) structural tie: the sequence of distance-callback calls with one thread.  Fibonacci build: every
-        # graph (the model contains the real heap, so ties are broken as the code breaks them); priority-queue
-        # build: tie-free graphs only (there the order is forced and both builds must agree with the model).
+        # (iv) structural tie: the sequence of distance-callback calls with one thread, every graph, both builds
+        # (each model contains the real queue of its build, so ties are broken as the code breaks them).
         for b in BUILDS:
             r = obs[ci].get((b, "trace"))
             if not r or r["crash"] or r.get("skipped"):
@@ -1372,6 +1375,16 @@ def big_row_problem(tag, src, N, mag):
     return None
 
 
+def shape_of(tag):
+    """'R lshape 1 2 <rows> <cols>' -> [rows, cols] or None (garbage from a mutated library is not an error of the check)"""
+    if tag is None:
+        return None
+    try:
+        return [float.fromhex(x) for x in tag[2]]
+    except (ValueError, OverflowError):
+        return None
+
+
 def evaluate_depth(ctx, exes, cases, stats):
     """harness command BIG in both heap builds; crash (stack overflow, out of memory) / hang / wrong row =
     violation with that input"""
@@ -1399,7 +1412,7 @@ def evaluate_depth(ctx, exes, cases, stats):
                                             N, conn[2] if conn else "missing", b))
             probs = []
             ls = r["tags"].get("lshape")
-            if ls is None or [float.fromhex(x) if x[:2] == "0x" else -1 for x in ls[2]] != [len(c["lm"]), N]:
+            if shape_of(ls) != [len(c["lm"]), N]:
                 probs.append("landmark matrix has the wrong shape %s" % (ls[2] if ls else "(missing)"))
             for i, src in enumerate(c["lm"]):
                 pr = big_row_problem(r["tags"].get("l%d" % i), src, N, mag)
@@ -1409,7 +1422,7 @@ def evaluate_depth(ctx, exes, cases, stats):
                     probs.append("landmark overload, row %d: %s" % (i, pr))
             if N <= 4000:
                 fsh = r["tags"].get("fshape")
-                if fsh is None or [float.fromhex(x) if x[:2] == "0x" else -1 for x in fsh[2]] != [N, N]:
+                if shape_of(fsh) != [N, N]:
                     probs.append("full matrix has the wrong shape %s" % (fsh[2] if fsh else "(missing)"))
                 for src in range(N):
                     pr = big_row_problem(r["tags"].get("f%d" % src), src, N, mag)
@@ -1508,7 +1521,7 @@ def run(ctx):
         cases.append(c)
         if c.get("kind", "sp") == "sp":
             e = MAGNITUDES[len(cases) % len(MAGNITUDES)]
-            cases.append(dict(c, scale=c.get("scale", 0) - e, mag=e))
+            cases.append(dict(c, scale=c.get("scale", 0) - e, mag=c.get("mag", 0) + e))
         elif c.get("kind") == "iso" and not c.get("mag"):
             cases.append(dict(c, mag=MAGNITUDES[len(cases) % len(MAGNITUDES)]))
     cases += boundary_sp_cases()
